@@ -193,10 +193,11 @@ class HashFn:
 
 
 class Frame:
-    __slots__ = ("func", "module", "env", "cls_ctx", "first", "parent")
+    __slots__ = ("func", "module", "env", "cls_ctx", "first", "parent", "gen")
 
     def __init__(self, func, module, env, cls_ctx=None, first=None, parent=None):
         self.func, self.module, self.env, self.cls_ctx, self.first, self.parent = func, module, env, cls_ctx, first, parent
+        self.gen = None
 
 
 class Closure:
@@ -515,16 +516,27 @@ class Interp:
             raise AnalysisError(f"call depth exceeded at {f.qualname}")
         # bind parameters
         a = f.node.args
-        if a.vararg or a.kwarg or a.kwonlyargs:
-            raise AnalysisError(f"{f.where}: star-parameters are outside the fragment")
+        if a.kwarg:
+            raise AnalysisError(f"{f.where}: **kwargs parameter outside the fragment")
         params = [x.arg for x in a.posonlyargs + a.args]
+        extra_pos = ()
         if len(args) > len(params):
-            raise AnalysisError(f"{self.where(node)}: too many arguments for {f.qualname}")
+            if not a.vararg:
+                raise AnalysisError(f"{self.where(node)}: too many arguments for {f.qualname}")
+            extra_pos = tuple(args[len(params):])
         env = dict(zip(params, args))
+        if a.vararg:
+            env[a.vararg.arg] = extra_pos
+        kwonly = [x.arg for x in a.kwonlyargs]
         for k, v in kwargs.items():
-            if k not in params or k in env:
+            if (k not in params and k not in kwonly) or k in env:
                 raise AnalysisError(f"{self.where(node)}: bad keyword {k} for {f.qualname}")
             env[k] = v
+        for x, dn in zip(a.kwonlyargs, a.kw_defaults):
+            if x.arg not in env:
+                if dn is None:
+                    raise AnalysisError(f"{self.where(node)}: missing keyword-only argument {x.arg} for {f.qualname}")
+                env[x.arg] = self.eval(dn, Frame(None, f.module, {}))
         defaults = a.defaults
         for i, dn in enumerate(defaults):
             p = params[len(params) - len(defaults) + i]
@@ -535,12 +547,32 @@ class Interp:
         if missing:
             raise AnalysisError(f"{self.where(node)}: missing arguments {missing} for {f.qualname}")
         fr = Frame(f, f.module, env, f.cls, args[0] if args and f.kind != "staticmethod" and f.cls else None)
+        if _is_generator(f.node):
+            # a generator function is run to exhaustion (its loops must be concrete); what it raises is kept and re-raised
+            # only by a consumer that runs past the last item
+            fr.gen = GenItems()
+            self.stack.append(fr)
+            try:
+                self.exec_block(f.node.body, fr)
+            except _Return:
+                pass
+            except Raised as ex:
+                fr.gen.exc = ex.exc
+            finally:
+                self.stack.pop()
+            return fr.gen
         self.stack.append(fr)
         try:
             self.exec_block(f.node.body, fr)
             return None
         except _Return as r:
-            return r.value
+            v = r.value
+            if f.node.decorator_list and isinstance(v, (dict, list, set, bytearray, HashObj)):
+                from .effects import is_memoised
+                if is_memoised(f):
+                    # one object per argument tuple, handed to every caller: shared state
+                    self.world.__dict__.setdefault("shared_objs", {})[id(v)] = (f.module.name, f"{f.node.name}(…) [memoised result]", v)
+            return v
         finally:
             self.stack.pop()
 
@@ -664,6 +696,9 @@ class Interp:
                 return _BuiltinMethod(self, "hash." + name, obj)
             if name == "name":
                 return Term("hash_name", (_hashable(obj.fn),), "str")
+        from .builtins_model import StructObj
+        if isinstance(obj, StructObj) and name == "pack":
+            return _BuiltinMethod(self, "struct.pack_method", obj)
         if isinstance(obj, HashFn) and name in ("digest_size", "block_size"):
             return getattr(obj, name)
         if isinstance(obj, Term):
@@ -875,6 +910,13 @@ class Interp:
             return list(v)
         if hasattr(v, "v_unpack"):
             return v.v_unpack(n, self)
+        if isinstance(v, SymSeq):
+            # exactly n elements, else ValueError
+            if not self.truth(self.compare(ast.Eq(), v.length, n, node), node):
+                self.raise_exc("ValueError", "unpack length mismatch", node)
+            e = v.elem
+            sort = e.sort if isinstance(e, Term) else "any"
+            return [Term("at", (_hashable(e), v.name, i), sort) for i in range(n)]
         if isinstance(v, Term):
             if v.op == "tuple":
                 if len(v.args) != n:
@@ -957,8 +999,19 @@ class Interp:
                 break
             except _Continue:
                 continue
+        if not broke and getattr(it, "exc", None) is not None:
+            raise Raised(it.exc)
         if st.orelse and not broke:
             self.exec_block(st.orelse, fr)
+
+    def e_Yield(self, e, fr):
+        f = fr
+        while f is not None and f.gen is None:
+            f = f.parent
+        if f is None:
+            raise AnalysisError(f"{self.where(e)}: yield outside a generator function")
+        f.gen.append(self.eval(e.value, fr) if e.value is not None else None)
+        return None
 
     def generic_elem(self, it, node):
         if isinstance(it, SymSeq):
@@ -1748,6 +1801,28 @@ _MISSING = object()
 
 class _ConcreteIter(list):
     """a fully evaluated generator expression"""
+
+
+class GenItems(_ConcreteIter):
+    """the items a generator function yields, and the exception (if any) it raises after the last of them"""
+    exc = None
+
+
+def _is_generator(fn_node):
+    cached = getattr(fn_node, "_vs_isgen", None)
+    if cached is None:
+        cached = False
+        stack = list(fn_node.body)
+        while stack:
+            n = stack.pop()
+            if isinstance(n, (ast.Yield, ast.YieldFrom)):
+                cached = True
+                break
+            if isinstance(n, (ast.FunctionDef, ast.Lambda, ast.ClassDef)):
+                continue
+            stack.extend(ast.iter_child_nodes(n))
+        fn_node._vs_isgen = cached
+    return cached
 
 
 class _GlobalsProxy:
